@@ -65,7 +65,17 @@ static void run_prog(void* arg)
     // msetafter<k>: set number k is issued only after k waiters have taken the monitor AND the k-1 sets before it have each
     // released a waiter (so sets never coalesce): every such set has to release a waiter
     if(!strcmp(f, "msetafter")) { while(entered < (int)ms || returnedW < (int)ms - 1) sched_point("await_enter"); ms = 0; }
+    // setafter<k>: Signal::set() issued only once k threads are blocked inside wait: they are current waiters of this set for certain
+    if(!strcmp(f, "setafter")) { int ids[16]; while(sched_cond_blocked(ids, 16) < (int)ms) sched_point("await_blocked"); ms = 0; strcpy(f, "set"); }
     const char* lf = !strcmp(f, "tlu") ? "trylock" : !strcmp(f, "mwaite") ? "mwait" : !strcmp(f, "msetafter") ? "mset" : f;
+    if(!strcmp(f, "set") && sig)
+    {
+      // the waiters that are blocked inside Signal::wait at this moment ("current waiters": the set has to release them)
+      int ids[16]; int n = sched_cond_blocked(ids, 16); char cw[128]; size_t o = 0; cw[0] = 0;
+      for(int k = 0; k < n; ++k) o += snprintf(cw + o, sizeof(cw) - o, "%s%d", k ? "," : "", logicalId[ids[k]]);
+      sched_event("\"op\":\"call\",\"t\":%d,\"f\":\"%s\",\"ms\":%ld,\"cw\":[%s]", t, lf, ms, cw);
+    }
+    else
     sched_event("\"op\":\"call\",\"t\":%d,\"f\":\"%s\",\"ms\":%ld", t, lf, ms);
     int r = 1;
     if(!strcmp(f, "mwaite")) { ++entered; r = mon->wait(); ++returnedW; }
